@@ -482,10 +482,29 @@ def _future_result(eng, args, kw, st, fr, k, node):
     return k(Opq(FUT_RESULT(st.env["msg"].t)), st)
 
 
+def _kfe_reraise_default():
+    """the default of kill_from_exception's ``reraise`` parameter, read from the real source"""
+    import ast as _ast
+    from pyvc.engine import find_function
+    fn, _ = find_function(F, "Mailbox.kill_from_exception")
+    names = [a_.arg for a_ in fn.args.args]
+    defaults = dict(zip(names[len(names) - len(fn.args.defaults):], fn.args.defaults))
+    d = defaults.get("reraise")
+    return isinstance(d, _ast.Constant) and d.value is True
+
+
 def _kill_from_exception_callee(eng, args, kw, st, fr, k, node):
-    """self.kill_from_exception(e): kills the mailbox (its own locked section) and re-raises unless e is MailboxKilled"""
+    """self.kill_from_exception(e) from the reader: kills the mailbox (its own locked section, contract KFE) and - with the
+    default reraise=True - re-raises e unless e is a MailboxKilled (then the next look at the mailbox raises MailboxKilled)"""
+    reraises = eng.truth(kw["reraise"]) if "reraise" in kw else z3.BoolVal(_kfe_reraise_default())
+    eng.oblige("relay", "an exception the consumer throws in at the yield is re-raised by the reader after the kill "
+                        "(kill_from_exception is called with reraise true - its default)", st, reraises, node)
+    e = eng.to_v(args[-1]) if args else NONE
     fr.on_raise(Exc("Any", Opq(eng.fresh("reraised", "V"))), st)
-    return k(PNONE, st)
+    return k(PNONE, st.assume(z3.Or(IS_MBK_EARLY(e), z3.Not(reraises))))
+
+
+IS_MBK_EARLY = z3.Function("isinstance:MailboxKilled", V, z3.BoolSort())
 
 
 def _reader_me(st):
